@@ -9,7 +9,7 @@ from harness.stackgen import gen_layers
 from harness.stackrun import StackRun, tap_submits, fut_state, state_desc
 
 PROP = "C06"
-PLAN = {"quick": {"runs": 12000, "wall_s": 90}, "thorough": {"runs": 300000, "wall_s": 1200}}
+PLAN = {"quick": {"runs": 20000, "wall_s": 90}, "thorough": {"runs": 300000, "wall_s": 1200}}
 RULE = ("Each run: a random stack (depth 1-4) over a scripted spy delegate or a real thread pool, or an f_* combinator "
         "over spy inputs; cancel() is issued 1-3 times from 1-2 threads at drawn virtual times across the life of each "
         "future (queued, between retries, during hand-over, running, polling, being resolved). Oracles over the history: "
